@@ -106,14 +106,14 @@ Proof. exact results_schedule_independent. Qed.
 Print Assumptions C10_schedule_independent.
 
 (* down to the bytes: on any heading-free spelling of a forest the splitter sends split_rows of
-   the rows, every worker re-scanning its block gets its rows back, and under EVERY interleaving
+   the rows, every worker cutting its block into lines gets its rows back, and under EVERY interleaving
    the roots are the forest's tries (in block order; as a multiset in any completion order),
    i.e. what simple mode produces for the same bytes (C01_text_rule) *)
 Theorem C10_front_end : forall sp f,
   spells sp f -> sp_heading sp = false ->
   let rows := map fst (sp_rows sp) in
   split_doc (bytes_of sp) = (map block_bytes (split_rows rows), true) /\
-  Forall (fun b => scan_lines (block_bytes b) = (b, ScanEOF)) (split_rows rows) /\
+  Forall (fun b => block_lines (block_bytes b) = b) (split_rows rows) /\
   forall sched, interleave (split_rows rows) sched ->
     roots_of (results_by_block (List.length (split_rows rows)) (run_sched p0 sched)) = map trie_of f /\
     forall order, Permutation order (seq 0 (List.length (split_rows rows))) ->
